@@ -14,15 +14,25 @@ pool members.  Operations (an inapplicable one is skipped):
   ["filter_packages_tags"|"filter_packages_tags_copy", i, pkgs, tags]   keeps (p, ts) with p in pkgs or ts & tags
   ["filter_tags"|"filter_tags_copy", i, tags]
   ["read", lines, filter]                        a new database read from text
+  ["reread", i, lines, filter]                   read() into a database that already holds a collection
+  ["mquery", i, names]                           packages_of_tags / tags_of_packages / ideal_tagset, each with
+                                                 every rotation of the non-empty name list (see do_mquery)
+  ["qio", i, [j, k], "fresh"|"reuse"|"into"]     qwrite() of members i, j, k one after another into one
+                                                 in-memory file, qread() back in the same order (see do_qio)
 
 After every step every live database is compared with its reference state (model/c20_relation.py)
 through the public query methods.  A derivation documented as *sharing* sets with its source joins
 the source's sharing class; an insert into one member retires all other members of the class (their
 consistency is not promised).  A derivation documented as a *copy* starts a class of its own and
-must stay exact whatever happens to its source afterwards, and vice versa.
+must stay exact whatever happens to its source afterwards, and vice versa.  A database obtained
+through qread() is compared with the state its writer had at qwrite() time and is independent of
+everything.  A query (mquery) and a write-out (qwrite) must leave *every* database of the pool
+exactly as it was; the value a multi-name query returns is only required to lie between the
+intersection and the union of the single-name answers (docstring "all" vs. computed union).
 
 Known finding "insert-chars" (known_findings.json): dual model, see check_step().
 """
+import io
 import os
 import re
 
@@ -38,12 +48,18 @@ ID = "C20"
 LEVEL = "exploration"
 RULE = ("cases are histories [init lines, tag filter, op list] over a pool of databases, compared "
         "with a reference relation after every step; enumerated: every op sequence of length 1..3 "
-        "(quick) / 1..4 (thorough) over a 17-operation alphabet (each derivation kind + 4 inserts + a second read) x "
-        "target index 0..position on one fixed 3-package collection; generated: 0..8 initial packages "
+        "over a 19-operation alphabet (each derivation kind + 4 inserts + read() into an existing "
+        "database + the multi-name queries with a 5-name list in every rotation + a qwrite/qread "
+        "round trip of three pool members through one file) and, thorough only, of length 1..4 over "
+        "the first 17 of them x "
+        "target index 0..position on one fixed 5-package collection; generated: 0..8 initial packages "
         "in single- and multi-package lines (distinct names of 1..6 characters; one-character names in "
         "about half of the positions and exclusively in a quarter of the histories), 14 facet::tag "
         "names sharing 6 facets, optional tag_filter, 1..12 operations (thorough: 1..20) = inserts, "
-        "all 13 derivations, further read()s into the pool; thorough adds a RuleBasedStateMachine "
+        "all 12 derivations, further read()s into the pool and into existing members, multi-name "
+        "queries (1..4 names, existing and absent, as drawn and rotated), qwrite/qread of 1..3 "
+        "members through one in-memory file into fresh DBs / one reused DB / an existing member; "
+        "thorough adds a RuleBasedStateMachine "
         "with a Bundle of databases driving the same interpreter. "
         "Non-trivial = at least one executed insert after at least one executed derivation, in a "
         "history where some database had a tag listing >= 2 packages; distinct = canonical JSON")
@@ -52,11 +68,18 @@ ASSUMPTIONS = [
     "filter predicates are given as explicit sets; filter_packages_tags keeps (p, ts) with p in pkgs or ts & tags",
     "facet of a tag = text before its first ':'; facet_collection is exercised only when every tag has one",
     "M' (known finding insert-chars) replays facet_collection in the order iter_packages() yields",
+    "packages_of_tags/tags_of_packages: only 'between intersection and union of the single-name answers' "
+    "is demanded of the value (docstring says all, code unites); ideal_tagset: the set of a non-empty prefix "
+    "of its argument; all three must leave every database unchanged",
+    "qwrite/qread use io.BytesIO; a database read back must show exactly the writer's state (keys with empty "
+    "sets included: both indexes are stored)",
     "Hypothesis 6.168 generators and stateful testing; sha1 for distinctness",
 ]
 EXHAUSTIVE = {
-    "quick": "all op sequences of length 1..3 over the 15-op alphabet x target index 0..position on the fixed collection",
-    "thorough": "all op sequences of length 1..4 over the 15-op alphabet x target index 0..position on the fixed collection",
+    "quick": "all op sequences of length 1..3 over the 19-op alphabet (incl. multi-name queries and the pickle "
+             "round trip) x target index 0..position on the fixed collection",
+    "thorough": "all op sequences of length 1..3 over the 19-op alphabet and of length 1..4 over its first 17 ops "
+                "(no multi-name queries / pickle round trip) x target index 0..position on the fixed collection",
 }
 BUDGET = {"quick": 200, "thorough": 1500}
 
@@ -330,6 +353,120 @@ class Interp(object):
         self.labels.add("op:read-into-existing-db")
         return e
 
+    def verify_all(self, actor, opname, sig):
+        """A query / a write-out changes nothing: every live database still shows its state."""
+        for o in self.live():
+            obs = observe(o.db, o.name())
+            if obs != o.S:
+                raise Violation(sig, "%s on %s changed %s: %s" % (
+                    opname, actor.name(), "itself" if o is actor else o.name(), rel.diff(obs, o.S)))
+
+    def do_mquery(self, e, names):
+        """The multi-name queries packages_of_tags / tags_of_packages / ideal_tagset, each called
+        with every rotation of the (non-empty, duplicate-free) name list, so that every name is the
+        first argument once.  What is demanded: they are *queries* - afterwards every database of
+        the pool is unchanged - and the answer lies between the intersection and the union of the
+        single-name answers (the docstrings say "all", the code takes the union: either reading
+        passes); ideal_tagset returns the set of a non-empty prefix of its argument ("taken in
+        consecutive sequence from the beginning", "always at least the first tag")."""
+        names = [n for i, n in enumerate(strs(names)) if n not in strs(names)[:i]][:6]
+        if not names:
+            self.labels.add("note:mquery-skipped-empty-list")
+            return None
+        S = e.S
+        for side, key in ((S.rev, "tags"), (S.fwd, "packages")):
+            present = [n for n in names if n in side]
+            if len(present) >= 2:
+                self.labels.add("mquery:2+-existing-%s" % key)
+                if any(side[n] - side[present[0]] for n in present[1:]):
+                    self.labels.add("mquery:later-%s-add-to-the-first" % key)
+            if present and len(present) < len(names):
+                self.labels.add("mquery:existing-and-absent-%s" % key)
+        for r in range(len(names)):
+            arg = names[r:] + names[:r]
+            for method, side in (("packages_of_tags", S.rev), ("tags_of_packages", S.fwd)):
+                given = list(arg)
+                got = getattr(e.db, method)(given)
+                if not (isinstance(got, (set, frozenset)) and all(isinstance(x, str) for x in got)):
+                    raise Violation("query:" + method, "%s: %s(%s) = %s" % (
+                        e.name(), method, arg, short(got, 120)))
+                parts = [side.get(n, set()) for n in arg]
+                lo, hi = set.intersection(*parts), set().union(*parts)
+                if not (lo <= set(got) <= hi):
+                    raise Violation("query:" + method, "%s: %s(%s) = %s, not between the common "
+                                    "members %s and all members %s of the single answers" % (
+                                        e.name(), method, arg, short(sorted(got), 120),
+                                        sorted(lo), sorted(hi)))
+                if given != arg:
+                    raise Violation("query:" + method, "%s(%s) left its argument as %s" % (
+                        method, arg, short(given, 120)))
+                self.verify_all(e, "%s(%s)" % (method, arg), method + "-changes-collection")
+            given = list(arg)
+            got = e.db.ideal_tagset(given)
+            if not (isinstance(got, (set, frozenset))
+                    and any(set(got) == set(arg[:k]) for k in range(1, len(arg) + 1))):
+                raise Violation("query:ideal_tagset", "%s: ideal_tagset(%s) = %s, not a non-empty "
+                                "prefix of the argument" % (e.name(), arg, short(got, 120)))
+            if given != arg:
+                raise Violation("query:ideal_tagset", "ideal_tagset(%s) left its argument as %s" % (
+                    arg, short(given, 120)))
+            self.verify_all(e, "ideal_tagset(%s)" % arg, "ideal_tagset-changes-collection")
+        check_queries(e.db, e.S, e.name())
+        self.labels.add("op:multi-name-queries")
+        return None
+
+    def do_qio(self, e, extras, mode):
+        """qwrite()/qread(): the target and up to two more pool members are written one after
+        another into ONE in-memory file, which is then read back in the same order
+
+          "fresh"  into one new DB() per collection (all join the pool),
+          "reuse"  all into one new DB() (checked after each qread; it joins the pool),
+          "into"   all into the target itself, a database that already holds a collection
+                   (views sharing sets with its old content are retired, as for reread).
+
+        "Quickly write the data" / "Quickly read the data": after the k-th qread the database is
+        exactly what the k-th writer showed when it was written (both indexes are stored, so this
+        also holds downstream of the known finding); writing changes nothing."""
+        mode = mode if mode in ("fresh", "reuse", "into") else "fresh"
+        extras = [x for x in extras if isinstance(x, int) and not isinstance(x, bool)][:2] \
+            if isinstance(extras, list) else []
+        srcs = [e] + [self.target(x) for x in extras]
+        if len(self.pool) + (len(srcs) if mode == "fresh" else 1) > 24:
+            return None
+        buf = io.BytesIO()
+        for s in srcs:
+            s.db.qwrite(buf)
+            self.verify_all(s, "qwrite", "qwrite-changes-collection")
+        written = [(s, s.S.copy(), s.T.copy()) for s in srcs]
+        buf.seek(0)
+        out = []
+        holder = None
+        if mode == "into":
+            for o in self.live():
+                if o is not e and o.find() is e.find():
+                    o.live = False
+            holder = e
+            self.labels.add("qread-into-existing-db")
+        for s, spec, truth in written:
+            if holder is None:
+                holder = self.add(DB(), "qread", s, False)
+                out.append(holder)
+            holder.db.qread(buf)
+            self.settle(holder, spec, None, truth, "qread")
+            self.verify_others(holder, "qread")
+            if mode == "fresh":
+                holder = None
+        self.labels.add("op:qwrite/qread")
+        if len(written) >= 2:
+            self.labels.add("qio:2+-collections-in-one-file/" + mode)
+            if any(a[1] != b[1] for a, b in zip(written, written[1:])):
+                self.labels.add("qio:different-collections-in-one-file")
+        if any(sp.fwd != sp.rev for _, sp, _ in written):
+            self.labels.add("qio:collection-differs-from-its-reverse")
+        if mode == "reuse":
+            self.labels.add("qread-twice-into-one-db" if len(written) >= 2 else "qread-into-new-db")
+        return out or None
+
     def do_insert(self, e, pkg, tags):
         if not isinstance(pkg, str) or not pkg or pkg in e.S.fwd or pkg in e.T.fwd:
             self.labels.add("note:insert-skipped-existing-name")
@@ -459,6 +596,10 @@ class Interp(object):
             return e
         if name == "insert":
             return self.do_insert(self.target(arg(1)), arg(2), arg(3)) or None
+        if name == "mquery":
+            return self.do_mquery(self.target(arg(1)), arg(2))
+        if name == "qio":
+            return self.do_qio(self.target(arg(1)), arg(2), arg(3))
         if name in SHARING or name in COPYING:
             if len(self.pool) >= 24:
                 return None
@@ -513,16 +654,20 @@ ENUM_OPS = [
     ["insert", "g::n", ["s"]],      # in a reversed view: a new item under one of the two packages of a line
     ["reread", [[["p"], ["h::c"], 0], [["u"], ["f::a"], 0]], None],   # read() into a database that holds something
 ]
+ENUM_OPS_IO = ENUM_OPS + [
+    ["mquery", ["f::a", "p", "zz", "g::b", "s"]],   # two tags, two packages, one absent name; every rotation
+    ["qio", [0, 1], "fresh"],                       # target + members 0 and 1 through one pickle file
+]
 
 
-def enum_cases(maxlen):
+def enum_cases(maxlen, alphabet):
     def gen():
         def rec(prefix, pos):
             if prefix:
                 yield {"kind": "history", "init": ENUM_INIT, "filter": None, "ops": list(prefix)}
             if pos == maxlen:
                 return
-            for o in ENUM_OPS:
+            for o in alphabet:
                 for i in range(pos + 1):
                     prefix.append([o[0], i] + o[1:])
                     for c in rec(prefix, pos + 1):
@@ -585,8 +730,14 @@ op_d2 = st.tuples(st.sampled_from(["filter_packages_tags", "filter_packages_tags
 op_d3 = st.tuples(st.sampled_from(["filter_tags", "filter_tags_copy"]), IDX, tsel)
 op_read = st.tuples(st.just("read"), read_lines, tag_filter)
 op_reread = st.tuples(st.just("reread"), IDX, read_lines, tag_filter)
+op_mquery = st.tuples(st.just("mquery"), IDX,
+                      st.lists(st.one_of(ANY, ANY, st.sampled_from(HOT), st.sampled_from(TAGS + EXTRA_TAGS)),
+                               min_size=1, max_size=4))
+op_qio = st.tuples(st.just("qio"), IDX, st.lists(IDX, max_size=2),
+                   st.sampled_from(["fresh", "fresh", "reuse", "into"]))
 any_op = st.one_of(op_insert, op_insert, op_insert, op_insert, op_insert, op_insert, op_insert,
-                   op_d0, op_d0, op_d0, op_d0, op_facet, op_d1, op_d1, op_d2, op_d3, op_d3, op_read, op_reread)
+                   op_d0, op_d0, op_d0, op_d0, op_facet, op_d1, op_d1, op_d2, op_d3, op_d3, op_read, op_reread,
+                   op_mquery, op_mquery, op_qio)
 
 
 def resolve_case(mode, names, init, flt, ops):
@@ -642,6 +793,15 @@ def resolve_case(mode, names, init, flt, ops):
                 seen.update(pk)
                 rl.append([pk, sorted(tags), style])
             op = ["reread", op[1], rl, None if op[3] is None else sorted(op[3])]
+        elif op[0] == "mquery":
+            names_ = []
+            for x in op[2]:                  # the order of the names is part of the case
+                x = ref(x)
+                if x not in names_:
+                    names_.append(x)
+            op = ["mquery", op[1], names_]
+        elif op[0] == "qio":
+            op = ["qio", op[1], list(op[2]), op[3]]
         elif len(op) == 3:
             op = [op[0], op[1], refs(op[2])]
         elif len(op) == 4:
@@ -760,6 +920,8 @@ def machine_phase(shard, nshards, seed, deadline, rec):
             op = op_tail_builder(self.index_of(entry) if entry is not None else None)
             self.case["ops"].append(op)
             res = self.guard(lambda: self.it.step(op))
+            if isinstance(res, list):
+                return multiple(*[r for r in res if isinstance(r, Entry)])
             return res if isinstance(res, Entry) else multiple()
 
         @initialize(target=dbs, lines=m_lines, flt=m_filter)
@@ -799,6 +961,15 @@ def machine_phase(shard, nshards, seed, deadline, rec):
         def select_tags(self, e, op, tsel):
             return self.apply(lambda i: [op, i, tsel], e)
 
+        @rule(e=dbs, names=st.lists(st.sampled_from(universe), unique=True, min_size=1, max_size=4))
+        def multi_name_queries(self, e, names):
+            self.apply(lambda i: ["mquery", i, names], e)
+
+        @rule(target=dbs, e=dbs, extras=st.lists(st.integers(0, 7), max_size=2),
+              mode=st.sampled_from(["fresh", "fresh", "reuse", "into"]))
+        def pickle_round_trip(self, e, extras, mode):
+            return self.apply(lambda i: ["qio", i, extras, mode], e)
+
         def teardown(self):
             if self.it is not None and not self.stopped and self.case["ops"]:
                 rec.ok(self.case, self.it.result())
@@ -829,8 +1000,9 @@ def machine_phase(shard, nshards, seed, deadline, rec):
 
 def sources(tier):
     if tier == "quick":
-        return [Enum("op-alphabet<=3", enum_cases(3), EXHAUSTIVE["quick"]),
+        return [Enum("op-alphabet<=3", enum_cases(3, ENUM_OPS_IO), EXHAUSTIVE["quick"]),
                 Hyp("pool-histories", gen_case(12), 400, shards=8)]
-    return [Enum("op-alphabet<=4", enum_cases(4), EXHAUSTIVE["thorough"]),
+    return [Enum("op-alphabet<=3", enum_cases(3, ENUM_OPS_IO), EXHAUSTIVE["quick"]),
+            Enum("op-alphabet17<=4", enum_cases(4, ENUM_OPS), EXHAUSTIVE["thorough"]),
             Hyp("pool-histories", gen_case(20), 5000, shards=16),
             Custom("state-machine", machine_phase, shards=8)]
